@@ -227,7 +227,7 @@ pub fn gen_hist_spec(rng: &mut Rng, prof: &GenProfile, checks: Checks) -> HistSp
         par_preload: *rng.pick(&[0, 0, 1, 2, 4, 32]),
         cache: gen_cache(rng),
         policy: gen_policy(rng),
-        h2_mask: if rng.chance(1, 3) { (rng.next_u64() & 0x3ff) as u16 } else { 0 },
+        h2_mask: if rng.chance(1, 3) { (rng.next_u64() & 0x7ff) as u16 } else { 0 },
         universe,
         ops,
         checks,
